@@ -57,10 +57,9 @@ def sweep_leg(chk, quick):
     cfg = mp.write_cfg("mc_sweep.cfg", "SPECIFICATION Spec\nCONSTANTS\n  SweepNeg = %d\n  SweepPos = %d\n  LongLens = %s\n  LongKinds = %s\nINVARIANTS EncoderConsistent ShortestInt Export\n" % (neg, pos, longs, '{"str", "bin"}' if quick else '{"str", "bin", "arr"}'))
     r = vlib.tlc("MC_SaveSweep", cfg=cfg, timeout=3000, xmx="8g")
     chk.add_tlc("MC_SaveSweep", r, {"SweepNeg": neg, "SweepPos": pos, "LongLens": longs})
-    scen = r.printed("GEN")
     total = 0
-    for lo in range(0, len(scen), 100000):
-        part = scen[lo:lo + 100000]
+    for part in r.printed_chunks("GEN", 50000):          # streamed: the thorough sweep exports ~0.5M scripts
+        lo = total
         rows = [{"id": "w%d" % (lo + i), "root": s["root"]} for i, s in enumerate(part)]
         sp = os.path.join(vlib.scratch(), "sweep_scn.ndjson")
         vlib.write_ndjson(sp, rows)
